@@ -2,6 +2,7 @@ package simrt
 
 import (
 	"reflect"
+	"runtime"
 	"time"
 	"unsafe"
 )
@@ -542,4 +543,34 @@ func Gosched() {
 		return
 	}
 	decide(false, 0)
+}
+
+// GOMAXPROCS is the replacement of runtime.GOMAXPROCS in instrumented code: a
+// query (n < 1) returns the simulated number of processors of the run, a setting
+// is ignored (the workers' real GOMAXPROCS belongs to the simulator).
+//
+//go:norace
+func GOMAXPROCS(n int) int {
+	if !procsLoaded {
+		return runtime.GOMAXPROCS(n)
+	}
+	st.ProcQueries++
+	if simProcs < 1 {
+		return 1
+	}
+	return simProcs
+}
+
+// NumCPU is the replacement of runtime.NumCPU in instrumented code.
+//
+//go:norace
+func NumCPU() int {
+	if !procsLoaded {
+		return runtime.NumCPU()
+	}
+	st.ProcQueries++
+	if simProcs < 1 {
+		return 1
+	}
+	return simProcs
 }
